@@ -727,7 +727,8 @@ func (w *world) buildArgs(out string) []string {
 }
 
 func (w *world) baseEnv(cache string) []string {
-	return []string{"PATH=" + go123 + ":/usr/bin:/bin", "HOME=" + tmpRoot, "LLGO_ROOT=" + repoDir, "LLVM_CONFIG=" + shimDir + "/bin/llvm-config",
+	// TMPDIR: llgo leaves its temporary objects and archives behind; they go with the check's scratch directory
+	return []string{"PATH=" + go123 + ":/usr/bin:/bin", "HOME=" + tmpRoot, "TMPDIR=" + tmpRoot, "LLGO_ROOT=" + repoDir, "LLVM_CONFIG=" + shimDir + "/bin/llvm-config",
 		"GOTOOLCHAIN=local", "GOFLAGS=-mod=mod", "GOPROXY=off", "GOWORK=off", "XDG_CACHE_HOME=" + cache,
 		"GOCACHE=" + goEnv("GOCACHE"), "GOMODCACHE=" + goEnv("GOMODCACHE")}
 }
